@@ -641,3 +641,44 @@ Print Assumptions C10_array_to_vector_spec.
 Print Assumptions C10_vector_to_array_spec.
 Print Assumptions C10_array_vector_round_trip.
 Print Assumptions C10_vector_array_round_trip.
+
+(* ====================================================================================== *)
+(* A2B / B2A on whole arrays (graphs.rs:2683, 2710): the bit dimension is the last one, little
+   endian.  A2B: result[idx ++ [j]] = bit j of a[idx];  B2A: result[idx] = sum_j b[idx ++ [j]] 2^j;
+   B2A inverts A2B.  (Element level: C10_b2a_a2b_elem, C10_a2b_bits above.) *)
+From CC Require Import Proofs.EvalSpecBits.
+
+Theorem C10_a2b_array_spec : forall t0 t sh es,
+  valid_shape sh -> length es = Z.to_nat (prod_list sh) ->
+  let W := width (st_of t0) in
+  exists r, eval_node OA2B [t0] t [VArr es] = Ok (VArr r) /\
+    length r = Z.to_nat (prod_list (sh ++ [W])) /\
+    forall idx j, in_shape idx sh -> 0 <= j < W ->
+      get r (sh ++ [W]) (idx ++ [j]) = bit_of (get es sh idx) j.
+Proof. exact a2b_array_spec. Qed.
+Theorem C10_b2a_array_spec : forall st t0 t sh es,
+  valid_shape sh ->
+  let W := width st in
+  length es = Z.to_nat (prod_list (sh ++ [W])) ->
+  exists r, eval_node (OB2A st) [t0] t [VArr es] = Ok (VArr r) /\
+    length r = Z.to_nat (prod_list sh) /\
+    forall idx, in_shape idx sh ->
+      get r sh idx = bits_value (fun j => get es (sh ++ [W]) (idx ++ [j])) W.
+Proof. exact b2a_array_spec. Qed.
+Theorem C10_a2b_b2a_round_trip : forall st sh t1 t2 es,
+  Forall (fun e => 0 <= e < modulus st) es ->
+  (let* b := eval_node OA2B [TArray sh st] t1 [VArr es] in eval_node (OB2A st) [t1] t2 [b]) = Ok (VArr es).
+Proof. exact a2b_b2a_round_trip. Qed.
+
+Example C10_example_a2b_b2a :
+  (* 5 = 0b00000101, 130 = 0b10000010 *)
+  eval_node OA2B [TArray [2] U8] (TArray [2; 8] Bit) [VArr [5; 130]]
+  = Ok (VArr [1; 0; 1; 0; 0; 0; 0; 0;  0; 1; 0; 0; 0; 0; 0; 1]) /\
+  eval_node (OB2A U8) [TArray [2; 8] Bit] (TArray [2] U8) [VArr [1; 0; 1; 0; 0; 0; 0; 0;  0; 1; 0; 0; 0; 0; 0; 1]]
+  = Ok (VArr [5; 130]) /\
+  bit_of 130 7 = 1 /\ bits_value (fun j => nth (Z.to_nat j) [0; 1; 0; 0; 0; 0; 0; 1] 0) 8 = 130.
+Proof. repeat split; vm_compute; reflexivity. Qed.
+
+Print Assumptions C10_a2b_array_spec.
+Print Assumptions C10_b2a_array_spec.
+Print Assumptions C10_a2b_b2a_round_trip.
